@@ -108,10 +108,15 @@ class DaemonFaultFamily(Family):
 
     def gen(self, rng, tier, prop):
         nf = rng.choice([0, 1, 1, 2, 3, 4, 5, 6, 8, 11])
-        return dict(plan=[dict(op='call', call=rng.choice(CALLS), urls=rng.choice([1, 1, 2, 3]),
-                               faults=[rng.choice(FAULTS) for _ in range(nf)],
-                               init=rng.choice([0.25, 0.25, 0.1, 1.0, 4.0]), max=rng.choice([4.0, 4.0, 1.0]),
-                               concurrent=rng.random() < 0.25, seed=rng.getrandbits(32))])
+        op = dict(op='call', call=rng.choice(CALLS), urls=rng.choice([1, 1, 2, 3]),
+                  faults=[rng.choice(FAULTS) for _ in range(nf)],
+                  init=rng.choice([0.25, 0.25, 0.1, 1.0, 4.0]), max=rng.choice([4.0, 4.0, 1.0]),
+                  concurrent=rng.random() < 0.25, seed=rng.getrandbits(32))
+        if op['urls'] > 1 and not op['concurrent'] and rng.random() < 0.4:
+            idx = list(range(op['urls']))
+            rng.shuffle(idx)
+            op['reconf'] = idx[:rng.randint(1, len(idx))]
+        return dict(plan=[op])
 
     # one Daemon run: returns dict(result|exc, sleeps, urls_used, requests, failovers, file)
     def one_run(self, op, nurls, chooser, trace=False):
@@ -193,6 +198,19 @@ class DaemonFaultFamily(Family):
                 # of whichever daemon serves now (it may be lower than one seen before a fail-over)
                 h1 = await daemon.height()
                 out['height_after'] = (h1, daemon.cached_height(), ds[daemon.url_index].height)
+                if op.get('reconf'):
+                    # the operator reconfigures the URLs (LocalRPC daemon_url -> Daemon.set_url) after whatever
+                    # fail-overs the call went through: "set the URLs to the given list, and switch to the first"
+                    daemon.set_url(','.join(urls[i][7:-1] for i in op['reconf']))
+                    n0 = len(url_log)
+                    left = len(faults.script)
+                    try:
+                        h2 = await daemon.height()
+                        out['reconf'] = ('ok', h2, list(url_log[n0:]), left)
+                    except HarnessError:
+                        raise
+                    except BaseException as e:      # noqa: B902
+                        out['reconf'] = ('exc', repr(e), list(url_log[n0:]), left)
                 return r
 
         saved = [dict(d.mempool) for d in ds]
@@ -244,6 +262,8 @@ class DaemonFaultFamily(Family):
                 v('error_swallowed', f'a genuine RPC error was not raised; returned {str(r)[:80]}')
             elif not op.get('concurrent') or True:
                 served = [s for s in run['served']]
+                if run.get('reconf') and run['reconf'][0] == 'ok':
+                    served = served[:-1]        # the request made after the reconfiguration
                 last_base = served[-1][0] if served else None
                 src = ds[[f'http://u:p@d{i + 1}:8332/' for i in range(nurls)].index(last_base)] \
                     if last_base and not op.get('concurrent') else None
@@ -276,12 +296,22 @@ class DaemonFaultFamily(Family):
               f'is at {ha[2]}')
         # attempts: one per fault plus the successful / genuinely failing one
         if not op.get('concurrent') and 'exc' not in run or (genuine_error and not op.get('concurrent')):
-            if run['requests'] != nfaults + 2 + (1 if 'height_after' in run else 0):
+            if run['requests'] != nfaults + 2 + (1 if 'height_after' in run else 0) + (1 if 'reconf' in run else 0):
                 v('attempts', f'{run["requests"]} HTTP requests for {nfaults} faults')
         if run['inflight'] != 0:
             v('inflight', f'{run["inflight"]} request(s) still in flight after the call returned')
         # round-robin URL changes
         log = run['url_log']
+        rc = run.get('reconf')
+        if rc is not None:
+            log = log[:len(log) - len(rc[2])]
+            if rc[3] == 0:      # no scripted fault left: the one request after the reconfiguration must simply work
+                want = op['reconf'][0]
+                if rc[0] != 'ok':
+                    v('reconfigure', f'after fail-overs, set_url({op["reconf"]}) and height() raised {rc[1]}')
+                elif rc[2][:1] != [want] or rc[1] != ds[want].height:
+                    v('reconfigure', f'after set_url({op["reconf"]}) the next request went to URL {rc[2]} and '
+                      f'returned {rc[1]}; the first URL of the new list is #{want} at height {ds[want].height}')
         for a, b in zip(log, log[1:]):
             if a != b and b != (a + 1) % nurls and not op.get('concurrent'):
                 v('failover.order', f'URL index went {a} -> {b}')
@@ -291,7 +321,7 @@ class DaemonFaultFamily(Family):
                 v('backoff.bounds', f'sleep {s} outside [{init}, {mx}]')
         # law-agnostic fail-over timing via the single-URL differential
         if nurls > 1 and not op.get('concurrent') and nfaults:
-            single = self.one_run(op, 1, Chooser(0, replay=list(chooser.rec)), trace)
+            single = self.one_run(dict(op, reconf=None), 1, Chooser(0, replay=list(chooser.rec)), trace)
             sa = single['sleeps']
             exp_sleeps, exp_fail = [], []
             k = 0
